@@ -5,7 +5,7 @@ writer (`Doc.write`).  The side conditions that make the spelling unambiguous ar
 Comrak/Canon/Ok.lean (`Doc.ok`), the reference renderer in Comrak/Canon/Ref.lean.
 
 Blocks: paragraph, ATX and setext heading, thematic break, fenced and indented code block, block
-quote, tight and loose bullet / ordered lists.  Inlines: text (plain characters, backslash escapes, named and
+quote, tight and loose bullet / ordered lists with task items, GFM tables with alignments, HTML blocks; footnote definitions (one paragraph each) at the end.  Inlines: footnote references, text (plain characters, backslash escapes, named and
 numeric character references, multi-byte characters), code span, emphasis, strong, strikethrough (GFM), inline
 link with title, image, autolink, hard break (both spellings), soft break.
 Core Lean only (linked into the driver).
@@ -117,6 +117,10 @@ inductive Inl where
   /-- hard line break; `bs`: written backslash-newline, otherwise two spaces and newline -/
   | hard (bs : Bool)
   | soft
+  /-- footnote reference `[^name]`; `refNum`: this is the n-th reference to that note, `ix`: the
+      number of the note (notes are numbered in the order of their first reference): the two
+      fields comrak's footnote pass fills in; `Doc.ok` wants them to be exactly these numbers -/
+  | fnref (name : Bytes) (refNum ix : Nat)
 inductive Inls where
   | nil
   | cons (i : Inl) (r : Inls)
@@ -129,6 +133,13 @@ structure Marker where
   start : Nat := 1
   paren : Bool := false
   tight : Bool := true
+  deriving Repr, DecidableEq, Inhabited
+
+/-- Task-list marker of a list item (GFM tasklist extension): none, `[ ]`, or `[x]` / `[X]`. -/
+inductive Task where
+  | no
+  | unchecked
+  | checked (c : UInt8)
   deriving Repr, DecidableEq, Inhabited
 
 mutual
@@ -145,18 +156,37 @@ inductive Blk where
   | icode (lines : List Bytes)
   | quote (bs : Blks)
   | list (m : Marker) (items : Items)
+  /-- GFM table: one alignment per column, the header cells, the body rows (cells are inline
+      sequences; `Doc.ok` wants every row to have exactly one cell per column) -/
+  | table (aligns : List Align) (header : List Inls) (rows : List (List Inls))
+  /-- HTML block (start condition 6: `<div>`, `</table>`, ...): the lines up to the next blank line -/
+  | htmlb (lines : List Bytes)
 inductive Blks where
   | nil
   | cons (b : Blk) (r : Blks)
 inductive Items where
   | nil
-  | cons (bs : Blks) (r : Items)
+  /-- `task`: the item's first block is a paragraph written after a task marker -/
+  | cons (task : Task) (bs : Blks) (r : Items)
 end
+
+/-- A footnote: name, number of references to it (`total_references`), one paragraph of text. -/
+structure Note where
+  name : Bytes
+  total : Nat
+  body : Inls
 
 structure Doc where
   blocks : Blks
   /-- extra definitions written after every other one: they can only lose ("first definition wins") -/
   shadow : List RefDef := []
+  /-- the footnotes that are referenced, in the order of their first reference (the order comrak
+      moves them into at the end of the document) -/
+  notes : List Note := []
+  /-- the order in which the writer emits the definitions: positions in `notes` -/
+  noteOrder : List Nat := []
+  /-- definitions nothing refers to: written after the others, dropped by comrak -/
+  unused : List Note := []
 
 instance : Inhabited Inls := ⟨.nil⟩
 instance : Inhabited Blks := ⟨.nil⟩
@@ -165,13 +195,16 @@ instance : Inhabited Items := ⟨.nil⟩
 def Inls.isNil : Inls → Bool | .nil => true | .cons .. => false
 def Blks.isNil : Blks → Bool | .nil => true | .cons .. => false
 def Items.isNil : Items → Bool | .nil => true | .cons .. => false
+def Task.isTask : Task → Bool | .no => false | _ => true
+def Items.anyTask : Items → Bool | .nil => false | .cons t _ r => t.isTask || r.anyTask
 def Inls.length : Inls → Nat | .nil => 0 | .cons _ r => r.length + 1
 def Blks.length : Blks → Nat | .nil => 0 | .cons _ r => r.length + 1
-def Items.length : Items → Nat | .nil => 0 | .cons _ r => r.length + 1
+def Items.length : Items → Nat | .nil => 0 | .cons _ _ r => r.length + 1
 
 def Inls.ofList : List Inl → Inls | [] => .nil | i :: r => .cons i (Inls.ofList r)
 def Blks.ofList : List Blk → Blks | [] => .nil | b :: r => .cons b (Blks.ofList r)
-def Items.ofList : List Blks → Items | [] => .nil | b :: r => .cons b (Items.ofList r)
+def Items.ofList : List Blks → Items | [] => .nil | b :: r => .cons .no b (Items.ofList r)
+def Items.ofListT : List (Task × Blks) → Items | [] => .nil | b :: r => .cons b.1 b.2 (Items.ofListT r)
 
 /-! ## The tree a document spells -/
 
@@ -191,6 +224,7 @@ def Inl.toTree : Inl → Tree
   | .autolink s r => .node (.link (autolinkUrl s r) []) {} (.cons (leaf (.text (autolinkUrl s r))) .nil)
   | .hard _ => leaf .lineBreak
   | .soft => leaf .softBreak
+  | .fnref name rn ix => leaf (.footnoteReference name rn ix)
 def Inls.toForest : Inls → Forest
   | .nil => .nil
   | .cons i r => .cons i.toTree r.toForest
@@ -212,8 +246,31 @@ def Marker.nlist (m : Marker) (k : Nat) (tight : Bool) : NList :=
     tight := tight
     isTaskList := false }
 
+/-- The node of a list item: comrak turns an item whose first paragraph starts with a task marker
+    into a `TaskItem` that carries the marker's character and no list data. -/
+def Task.value (t : Task) (l : NList) : NodeValue :=
+  match t with
+  | .no => .item l
+  | .unchecked => .taskItem none
+  | .checked c => .taskItem (some [c])
+
 /-- Literal of a code block: every line followed by a newline. -/
 def joinLines (ls : List Bytes) : Bytes := ls.flatMap fun l => l ++ [0x0A]
+
+/-- The cells of one table row. -/
+def cellsForest : List Inls → Forest
+  | [] => .nil
+  | c :: r => .cons (.node .tableCell {} c.toForest) (cellsForest r)
+
+/-- The body rows of a table. -/
+def rowsForest : List (List Inls) → Forest
+  | [] => .nil
+  | r :: rs => .cons (.node (.tableRow false) {} (cellsForest r)) (rowsForest rs)
+
+/-- Number of cells the body rows spell (`num_nonempty_cells`: comrak counts the cells it read
+    from the input, for the body rows only; the header row is counted on the paragraph node the
+    table replaces, i.e. not at all). -/
+def bodyCells (rows : List (List Inls)) : Nat := (rows.map List.length).sum
 
 mutual
 def Blk.toTree : Blk → Tree
@@ -224,16 +281,36 @@ def Blk.toTree : Blk → Tree
   | .fence c len info lines => leaf (.codeBlock true c len 0 info (joinLines lines))
   | .icode lines => leaf (.codeBlock false 0 0 0 [] (joinLines lines))
   | .quote bs => .node .blockQuote {} bs.toForest
-  | .list m items => .node (.list (m.nlist m.start m.tight)) {} (items.toForest m m.start)
+  | .list m items =>
+    .node (.list { m.nlist m.start m.tight with isTaskList := items.anyTask }) {} (items.toForest m m.start)
+  | .htmlb ls => leaf (.htmlBlock 6 (joinLines ls))
+  | .table al h rows =>
+    .node (.table al h.length rows.length (bodyCells rows)) {}
+      (.cons (.node (.tableRow true) {} (cellsForest h)) (rowsForest rows))
 def Blks.toForest : Blks → Forest
   | .nil => .nil
   | .cons b r => .cons b.toTree r.toForest
 def Items.toForest (m : Marker) (k : Nat) : Items → Forest
   | .nil => .nil
-  | .cons bs r => .cons (.node (.item (m.nlist k false)) {} bs.toForest) (r.toForest m (k + 1))
+  | .cons t bs r => .cons (.node (t.value (m.nlist k false)) {} bs.toForest) (r.toForest m (k + 1))
 end
 
-def Doc.toTree (d : Doc) : Tree := .node .document {} d.blocks.toForest
+/-- The blocks followed by `tail` (the footnote definitions of the document). -/
+def Blks.toForestThen (tail : Forest) : Blks → Forest
+  | .nil => tail
+  | .cons b r => .cons b.toTree (r.toForestThen tail)
+
+/-- A footnote definition holds one paragraph. -/
+def Note.toTree (n : Note) : Tree :=
+  .node (.footnoteDefinition n.name n.total) {} (.cons (.node .paragraph {} n.body.toForest) .nil)
+
+def notesForest : List Note → Forest
+  | [] => .nil
+  | n :: r => .cons n.toTree (notesForest r)
+
+/-- comrak's footnote pass moves the referenced definitions to the end of the document, ordered by
+    first reference, and drops the others. -/
+def Doc.toTree (d : Doc) : Tree := .node .document {} (d.blocks.toForestThen (notesForest d.notes))
 
 /-! ## The canonical writer -/
 
@@ -257,6 +334,7 @@ def Inl.src : Inl → Bytes
   | .hard true => [0x5C, 0x0A]
   | .hard false => [0x20, 0x20, 0x0A]
   | .soft => [0x0A]
+  | .fnref name _ _ => [0x5B, 0x5E] ++ name ++ [0x5D]
 def Inls.src : Inls → Bytes
   | .nil => []
   | .cons i r => i.src ++ r.src
@@ -280,7 +358,28 @@ def itemLines (mk : Bytes) : List Bytes → List Bytes
   | [] => [mk]
   | l :: rest => (mk ++ [0x20] ++ l) :: rest.map fun l => if l.isEmpty then [] else rep (mk.length + 1) 0x20 ++ l
 
+/-- The task marker and the space after it. -/
+def Task.src : Task → Bytes
+  | .no => []
+  | .unchecked => [0x5B, 0x20, 0x5D, 0x20]
+  | .checked c => [0x5B, c, 0x5D, 0x20]
+
+/-- The marker stands at the start of the item's first line. -/
+def Task.mark (t : Task) : List Bytes → List Bytes
+  | [] => []
+  | l :: r => (t.src ++ l) :: r
+
 def quoteLine (l : Bytes) : Bytes := if l.isEmpty then [0x3E] else [0x3E, 0x20] ++ l
+
+/-- Delimiter-row cell of a column. -/
+def alignSrc : Align → Bytes
+  | .none => [0x2D, 0x2D, 0x2D]
+  | .left => [0x3A, 0x2D, 0x2D]
+  | .right => [0x2D, 0x2D, 0x3A]
+  | .center => [0x3A, 0x2D, 0x3A]
+
+/-- A table row: leading pipe, every cell padded with one space on each side and closed by a pipe. -/
+def rowSrc (cells : List Bytes) : Bytes := [0x7C] ++ cells.flatMap fun c => [0x20] ++ c ++ [0x20, 0x7C]
 
 mutual
 /-- Lines (without terminators) of a block. -/
@@ -293,13 +392,17 @@ def Blk.lines : Blk → List Bytes
   | .icode ls => ls.map fun l => if l.isEmpty then [] else rep 4 0x20 ++ l
   | .quote bs => (bs.lines false).map quoteLine
   | .list m items => items.lines m m.start
+  | .htmlb ls => ls
+  | .table al h rows =>
+    [rowSrc (h.map Inls.src), rowSrc (al.map alignSrc)] ++ rows.map fun r => rowSrc (r.map Inls.src)
 /-- Blocks of one container; separated by one blank line unless `tight`. -/
 def Blks.lines (tight : Bool) : Blks → List Bytes
   | .nil => []
   | .cons b r => b.lines ++ (if tight || r.isNil then [] else [[]]) ++ r.lines tight
 def Items.lines (m : Marker) (k : Nat) : Items → List Bytes
   | .nil => []
-  | .cons bs r => itemLines (m.src k) (bs.lines m.tight) ++ (if m.tight || r.isNil then [] else [[]]) ++ r.lines m (k + 1)
+  | .cons t bs r =>
+    itemLines (m.src k) (t.mark (bs.lines m.tight)) ++ (if m.tight || r.isNil then [] else [[]]) ++ r.lines m (k + 1)
 end
 
 /-! ### Reference definitions -/
@@ -327,23 +430,35 @@ def Blk.defs : Blk → List RefDef
   | .setext _ _ is => is.defs
   | .quote bs => bs.defs
   | .list _ items => items.defs
+  | .table _ h rows => h.flatMap Inls.defs ++ rows.flatMap fun r => r.flatMap Inls.defs
   | _ => []
 def Blks.defs : Blks → List RefDef
   | .nil => []
   | .cons b r => b.defs ++ r.defs
 def Items.defs : Items → List RefDef
   | .nil => []
-  | .cons bs r => bs.defs ++ r.defs
+  | .cons _ bs r => bs.defs ++ r.defs
 end
 
 /-- `[label]: dest "title"` -/
 def RefDef.line (d : RefDef) : Bytes :=
   [0x5B] ++ d.label ++ [0x5D, 0x3A, 0x20] ++ destSrc d.url d.angle ++ titleSrc d.title
 
+/-- `[^name]: text` -/
+def Note.line (n : Note) : Bytes := [0x5B, 0x5E] ++ n.name ++ [0x5D, 0x3A, 0x20] ++ n.body.src
+
+/-- The footnote definitions in the order they are written. -/
+def Doc.writtenNotes (d : Doc) : List Note :=
+  d.noteOrder.filterMap (fun i => d.notes[i]?) ++ d.unused
+
+/-- The definitions the reference-spelled links of the whole document need (blocks, then footnotes). -/
+def Doc.useDefs (d : Doc) : List RefDef :=
+  d.blocks.defs ++ d.writtenNotes.flatMap fun n => n.body.defs
+
 /-- All definitions in the order they are written: the leading block, then the trailing block,
     then the shadowed ones. -/
 def Doc.allDefs (d : Doc) : List RefDef :=
-  let ds := d.blocks.defs
+  let ds := d.useDefs
   ds.filter (fun x => x.before) ++ ds.filter (fun x => !x.before) ++ d.shadow
 
 /-- Groups of lines separated by one blank line (empty groups vanish). -/
@@ -353,13 +468,15 @@ def joinGroups : List (List Bytes) → List Bytes
     let r := joinGroups rest
     if g.isEmpty then r else if r.isEmpty then g else g ++ [[]] ++ r
 
-/-- The Markdown text of a document: every line terminated by a newline; the definitions of
+/-- (footnote definitions come last, each after a blank line)
+    The Markdown text of a document: every line terminated by a newline; the definitions of
     reference-spelled links stand in a block before or after the content. -/
 def Doc.write (d : Doc) : Bytes :=
-  let ds := d.blocks.defs
+  let ds := d.useDefs
   joinLines (joinGroups
-    [ (ds.filter (fun x => x.before)).map RefDef.line,
-      d.blocks.lines false,
-      (ds.filter (fun x => !x.before) ++ d.shadow).map RefDef.line ])
+    ([ (ds.filter (fun x => x.before)).map RefDef.line,
+       d.blocks.lines false,
+       (ds.filter (fun x => !x.before) ++ d.shadow).map RefDef.line ] ++
+     d.writtenNotes.map fun n => [n.line]))
 
 end Comrak.Canon
